@@ -2,6 +2,7 @@ package command
 
 import (
 	"context"
+	"math/big"
 
 	storageerrors "github.com/formancehq/ledger/internal/storage/sqlutils"
 
@@ -15,20 +16,30 @@ type executionContext struct {
 }
 
 func (e *executionContext) AppendLog(ctx context.Context, log *ledger.Log) (*ledger.ChainedLog, chan struct{}, error) {
+	return e.appendLog(ctx, false, func(*big.Int) *ledger.Log {
+		return log
+	})
+}
+
+// AppendTransactionLog appends a log creating a transaction: logBuilder receives the id to give to it.
+func (e *executionContext) AppendTransactionLog(ctx context.Context, logBuilder func(txID *big.Int) *ledger.Log) (*ledger.ChainedLog, chan struct{}, error) {
+	return e.appendLog(ctx, true, logBuilder)
+}
+
+func (e *executionContext) appendLog(ctx context.Context, allocateTXID bool, logBuilder func(txID *big.Int) *ledger.Log) (*ledger.ChainedLog, chan struct{}, error) {
 	if e.parameters.DryRun {
 		ret := make(chan struct{})
 		close(ret)
-		return log.ChainLog(nil), ret, nil
+		return logBuilder(e.commander.peekNextTXID()).ChainLog(nil), ret, nil
 	}
 
-	chainedLog := e.commander.chainLog(log)
-	logging.FromContext(ctx).WithFields(map[string]any{
-		"id": chainedLog.ID,
-	}).Debugf("Appending log")
 	done := make(chan struct{})
-	e.commander.Append(chainedLog, func() {
+	chainedLog := e.commander.appendLog(allocateTXID, logBuilder, func() {
 		close(done)
 	})
+	logging.FromContext(ctx).WithFields(map[string]any{
+		"id": chainedLog.ID,
+	}).Debugf("Log appended")
 	return chainedLog, done, nil
 }
 
